@@ -57,6 +57,7 @@ func h264Elements(s *h26xps.H264SPS) string {
 
 func classifyH264(s *h26xps.H264SPS, st h26xps.Stats) {
 	evid.Class(fmt.Sprintf("h264/chroma=%d", s.ChromaFormatIdc))
+	evid.Class(fmt.Sprintf("h264/profile_idc=%d", s.ProfileIdc))
 	if s.SeparateColourPlaneFlag {
 		evid.Class("h264/separate-planes")
 	}
